@@ -45,7 +45,23 @@ def run_shard(prop, tier, shard, nshards):
     col = Collector(prop, tier, shard, nshards)
     mod = load_check(prop)
     ctx = Ctx(prop, tier, shard, nshards, col)
-    mod.run(ctx)
+    try:
+        mod.run(ctx)
+    except Exception as e:
+        # The workload itself was aborted.  Outside their observed calls the checks only do things that cannot fail on a tree
+        # where the property holds (build specs from valid parts, repr() them, create registries): if the exception was raised
+        # by code of the library under test it is reported as a violation of its own kind, anything else is a harness
+        # failure and makes the run inconclusive - never a silent crash, never "held".
+        import traceback
+        tb = traceback.extract_tb(e.__traceback__)
+        text = ''.join(traceback.format_exception(type(e), e, e.__traceback__))[-3000:]
+        lib = os.path.join(env.SRC, 'glom') + os.sep
+        if tb and tb[-1].filename.startswith(lib):
+            col.violation('%s/library-raised-outside-an-observed-call:%s:%s' % (prop, type(e).__name__, tb[-1].name),
+                          'the workload was aborted by an exception raised inside the library while the harness was building or '
+                          'rendering a valid spec / registry:\n' + text, {'traceback': text})
+        else:
+            col.fail_inconclusive('the check aborted with %s: %s' % (type(e).__name__, text[-800:]))
     return col, mod
 
 
